@@ -16,9 +16,13 @@ NONDET = re.compile(r"rand::(rng|thread_rng|random|random_range|random_bool).*|r
 RX = r"sparse::.*|mackay_neal::.*|peg::.*|util::.*|rand::.*|rand_chacha::.*|std::vec::Vec::<T, A>::(truncate|pop|sort_unstable_by|drain|clear|append)|rayon::.*"
 
 
-def trace(F, fn, names, mode="int"):
+def trace(F, fn, names, mode="int", expand_helpers=False):
     b = F.body(fn)
-    t = SiteTracer(F, contracts=RX, no_inline=RX + "|std::.*|core::.*", mode=mode)
+    rx = RX
+    if expand_helpers:
+        # private methods of MacKayNeal called from this step (e.g. one per fill policy) are expanded at their call sites
+        rx = RX.replace("mackay_neal::.*", r"mackay_neal::(?!MacKayNeal::).*")
+    t = SiteTracer(F, contracts=rx, no_inline=rx + "|std::.*|core::.*", mode=mode)
     env = {}
     for p, nm in zip(b.params, names):
         t.bind(p, var(nm), env)
@@ -132,7 +136,7 @@ def run(ck, F, tier):
         ck.inst("Q1", "rng-threaded#%d:%s" % (i + 1, b.path.rsplit("::", 1)[-1]), ok, t["sp"], "%s draws from %s" % (t["func"].get("fn", "").rsplit("::", 1)[-1], src))
 
     # ---- Q2 ---------------------------------------------------------------------------------------
-    b, t, ret, calls = trace(F, MN + "select_rows", ["self"])
+    b, t, ret, calls = trace(F, MN + "select_rows", ["self"], expand_helpers=True)
     # both policies filter rows by a closure whose predicate, evaluated in the environment of its call site, must be
     # row_weight(self.h, r) < self.wr (strict). Name-independent: locals are resolved to what they were bound to.
     tf = Tracer(F, r"std::iter::Iterator::(filter|filter_map)", mode="int")
@@ -163,10 +167,20 @@ def run(ck, F, tier):
                         except Unsupported:
                             pass
             return v
-    t2 = T2(F, "NONE", mode="int")
+    from ..idioms import PUSH_RX, exits
+    t2 = T2(F, PUSH_RX, mode="int", inline=lambda p: F.private_helper(p, MN))
     env2 = {}
     t2.bind(b.params[0], var("self"), env2)
-    t2.eval(b.value, env2)
+    ret2 = t2.eval(b.value, env2)
+    # explicit-loop spelling of a filter: `for r in 0..num_rows { if pred(r) { candidates.push(..) } }`
+    for e in t2.events:
+        if e.callee.endswith("::push") and e.loops and e.loops[-1][0] == "range" and len(e.guards) >= 1:
+            lp = e.loops[-1]
+            if lp[2] == num(0) and lp[3] == app(SM + "num_rows", var("self.h")) and not lp[4]:
+                from ..symx import replace_atom
+                own = [g for g, p in e.guards if p and contains_atom(vkey(g), lambda a_: a_ == ("v", lp[1]))]
+                if len(own) == 1:
+                    preds.append((replace_atom(own[0], single_atom(var(lp[1])), var("r")), e.site))
     RW = app(SM + "row_weight", var("self.h"), var("r"))
     WR = var("self.wr")
     strict = []
@@ -188,8 +202,11 @@ def run(ck, F, tier):
     cm = by_name(calls, "choose_multiple")
     srs = by_name(calls, "sort_by_random_sel")
     ok = len(cm) == 1 and cm[0]["vals"][1:] == [var("self.rng"), var("self.wc")] and len(srs) == 1 and srs[0]["vals"][1] == var("self.wc") and srs[0]["vals"][3] == var("self.rng")
-    rets = [e for e in t.events if e.callee == "<return>"]
-    short = any("NoAvailRows" in repr(e.args[0]) and any("lt(" in repr(g) and "self.wc" in repr(g) and p for g, p in e.guards) for e in rets)
+    # Random policy: Err(NoAvailRows) exactly when fewer than wc rows could be chosen (early return or final if/else alike)
+    short = False
+    for gs, v in exits(t2, ret2, total=True):
+        if "NoAvailRows" in repr(v) and any(p and g.startswith("lt(") and "len(" in g and g.rstrip(")").endswith("self.wc") for g, p in gs):
+            short = True
     okor = bool(by_name(calls, "ok_or")) or "NoAvailRows" in repr(ret)
     ck.inst("Q2", "select_rows:exactly-wc", ok and short and okor, b.span,
             "Random: choose_multiple(rng, wc) and Err(NoAvailRows) when fewer than wc were available; Uniform: sort_by_random_sel(wc, .., rng) or NoAvailRows")
@@ -213,8 +230,9 @@ def run(ck, F, tier):
     b, t, ret, calls = trace(F, MN + "backtrack", ["self"])
     cc = by_name(calls, "clear_col")
     asg = {repr(e.args[0]): e for e in t.events if e.callee == "<assign>"}
-    A = CC - app("std::cmp::min", CC, var("self.backtrack_cols"))
-    A2 = CC - app("std::cmp::min", var("self.backtrack_cols"), CC)
+    from ..symx import mk_minmax
+    A = CC - mk_minmax("min", CC, var("self.backtrack_cols"))
+    A2 = A
     ok = len(cc) == 1 and cc[0]["loops"] and cc[0]["loops"][-1][0] == "range" and cc[0]["loops"][-1][2] in (A, A2) and cc[0]["loops"][-1][3] == CC \
         and not cc[0]["loops"][-1][4] and cc[0]["vals"][1] == var(cc[0]["loops"][-1][1])
     set_ok = "self.current_col" in asg and asg["self.current_col"].args[1] in (A, A2)
